@@ -449,6 +449,9 @@ def make_session_class(env, cfg, kind='rpc'):
                     raise e
                 if method == 'crash':
                     raise ValueError('handler crashed')
+                if method == 'unenc':
+                    # a result that cannot be encoded as JSON: the request fails at the reply
+                    return unencodable(rid)
                 return rid
             finally:
                 self.log.append(('finish', rid, self.loop.time()))
@@ -462,6 +465,18 @@ def make_session_class(env, cfg, kind='rpc'):
             return await self._handle(message[0].rstrip(b'\0').decode(), int(parts[0]),
                                       float(parts[1]) if len(parts) > 1 else 0.0)
     return Srv
+
+
+def unencodable(k):
+    """values json cannot encode: a set, bytes, a list nested beyond the recursion limit"""
+    if k % 3 == 0:
+        return {1, 2}
+    if k % 3 == 1:
+        return b'bytes'
+    deep = []
+    for _ in range(3000):
+        deep = [deep]
+    return deep
 
 
 class Live:
@@ -623,7 +638,7 @@ def run_session_case(env, cfg, client, script, kind='rpc'):
             if s.is_closing():
                 closed = True
             ev_last = None
-        elif st[0] in ('req', 'fail', 'crash', 'nreq', 'nfail', 'ncrash'):
+        elif st[0] in ('req', 'fail', 'crash', 'unenc', 'nreq', 'nfail', 'ncrash'):
             rid = st[1]
             is_notification = st[0][0] == 'n' or kind == 'msg'
             method = st[0][1:] if st[0][0] == 'n' else st[0]
@@ -688,7 +703,9 @@ def run_session_case(env, cfg, client, script, kind='rpc'):
                 # without the framing byte of a sent message: the text does not say); a failed
                 # request OR notification costs base + its own cost on top and counts as an error;
                 # if that re-evaluates, the decay covers the time since the evaluation.
-                failing = method in ('fail', 'crash')
+                # (a handler result that cannot be encoded makes the REQUEST fail - error reply -;
+                # for a notification nothing has to be encoded)
+                failing = method in ('fail', 'crash') or (method == 'unenc' and not is_notification)
                 own = st[2] if method == 'fail' else 0.0
                 sent, nwrites = live.sent_sizes(nout)
                 if is_notification and sent:
@@ -1091,8 +1108,10 @@ def random_session_script(rng):
             script.append(('fail', rid, dy(rng, 0, 300)))
         elif k < 0.35:
             script.append(('nfail', rid, dy(rng, 0, 300)))
-        elif k < 0.4:
+        elif k < 0.38:
             script.append(('crash', rid))
+        elif k < 0.42:
+            script.append(('unenc', rid))
         elif k < 0.45:
             script.append(('ncrash', rid))
         elif k < 0.55:
